@@ -286,11 +286,22 @@ class C12(E2ECheck):
                           max_samples=1)
             sema.dfs(cap, d, shard, nshards, visit)
 
+        def bvisit(case, viol, info):
+            out = {'violations': [], 'cls': ['block-systematic'],
+                   'nontrivial': info.get('blocked', False)}
+            if viol:
+                out['violations'].append(('c12:' + viol[0], viol[1]))
+            stats.add(case, out, max_samples=1)
+        sema.systematic_blocking(shard, nshards, bvisit)
+
     def coverage_extra(self, tier, results):
         return {'exhaustive': True,
                 'exhaustive_bound': f'all operation sequences of length '
                                     f'{self.depth(tier)} (and their '
-                                    f'prefixes), <=3 tags, capacity 1..3',
+                                    f'prefixes), <=3 tags, capacity 1..3; '
+                                    f'blocking scenarios (cap 1-2, 2-3 '
+                                    f'acquirers, 1-2 tags): every schedule '
+                                    f'with <=2 preemptions',
                 'explanation': 'exhaustive: true refers to sub-domain (a)'}
 
 
